@@ -122,7 +122,7 @@ pub struct CaseOut {
 }
 
 /// Builds the dictionary, runs the sentences on one worker, and returns the Coq term of the case.
-pub fn run_case(gd: &GenDict, ignore_space: bool, mgl: usize, sentences: &[String], rng: &mut Rng, counting: bool, threads: usize) -> CaseOut {
+pub fn run_case(gd: &GenDict, ignore_space: bool, mgl: usize, sentences: &[String], rng: &mut Rng, counting: bool, threads: usize, mode: &str) -> CaseOut {
     let built = gd.build();
     let head = |built: u8, conn: &str, space_res: u8, sents: &str| {
         format!(
@@ -144,7 +144,20 @@ pub fn run_case(gd: &GenDict, ignore_space: bool, mgl: usize, sentences: &[Strin
         Outcome::Panic => return CaseOut { term: fin(head(2, &gd.coq_matrix(), 0, "[]"), &extra), human, built: 2, sents: vec![] },
     };
     let conn = coq_conn(&dict);
-    let tokenizer = vibrato::Tokenizer::new(dict).max_grouping_len(mgl);
+    // option setters are applied as a sequence: sometimes the opposite / another value is set
+    // first and then overridden (the last call must win)
+    let mut tokenizer = vibrato::Tokenizer::new(dict);
+    if rng.chance(1, 3) {
+        tokenizer = tokenizer.max_grouping_len(if mgl == 0 { 3 } else { 0 });
+        tokenizer = match tokenizer.ignore_space(!ignore_space) {
+            Ok(t) => t,
+            Err(_) => match gd.build() {
+                Outcome::Ok(d) => vibrato::Tokenizer::new(d), // SPACE undefined: start over
+                _ => return CaseOut { term: fin(head(2, &gd.coq_matrix(), 0, "[]"), &extra), human, built: 2, sents: vec![] },
+            },
+        };
+    }
+    let tokenizer = tokenizer.max_grouping_len(mgl);
     let tokenizer = match tokenizer.ignore_space(ignore_space) {
         Ok(t) => t,
         Err(_) => return CaseOut { term: fin(head(0, &conn, 1, "[]"), &extra), human, built: 0, sents: vec![] },
@@ -207,6 +220,53 @@ pub fn run_case(gd: &GenDict, ignore_space: bool, mgl: usize, sentences: &[Strin
             for (i, v) in r.into_iter().enumerate() {
                 if let (Some(v), true) = (v, sents[i].outcome == 0) {
                     sents[i].alt.push(v);
+                }
+            }
+        }
+    }
+    if mode == "C08" && gd.user.is_some() {
+        // the same sentences on (1) a system lexicon extended by the user rows, (2) the dictionary
+        // after load(other); load(user) [replace], (3) after load(user); load(None) [clear],
+        // (4) a dictionary that never had a user lexicon
+        let tok_all = |d: Outcome<vibrato::Dictionary>| -> Vec<Option<Vec<String>>> {
+            match d {
+                Outcome::Ok(d) => {
+                    let t = vibrato::Tokenizer::new(d).max_grouping_len(mgl);
+                    match t.ignore_space(ignore_space) {
+                        Ok(t) => sents.iter().map(|o| fresh_tokens(&t, &o.text)).collect(),
+                        Err(_) => vec![None; sents.len()],
+                    }
+                }
+                _ => vec![None; sents.len()],
+            }
+        };
+        let user_rows = gd.user.clone().unwrap();
+        let mut merged = gd.clone();
+        merged.sys.extend(user_rows.iter().cloned());
+        merged.user = None;
+        let mut nouser = gd.clone();
+        nouser.user = None;
+        let mut other = gd.clone();
+        other.user = Some(gd.sys.iter().take(2).cloned().collect());
+        let user_csv = GenDict::rows_csv(&user_rows);
+        let replaced = match other.build() {
+            Outcome::Ok(d) => guarded(move || d.reset_user_lexicon_from_reader(Some(user_csv.as_bytes()))),
+            Outcome::Err => match nouser.build() {
+                // the first user lexicon was rejected (e.g. empty): load directly
+                Outcome::Ok(d) => guarded(move || d.reset_user_lexicon_from_reader(Some(user_csv.as_bytes()))),
+                _ => Outcome::Err,
+            },
+            Outcome::Panic => Outcome::Panic,
+        };
+        let cleared = match gd.build() {
+            Outcome::Ok(d) => guarded(move || d.reset_user_lexicon_from_reader(None::<&[u8]>)),
+            _ => Outcome::Err,
+        };
+        let cols = [tok_all(merged.build()), tok_all(replaced), tok_all(cleared), tok_all(nouser.build())];
+        for (i, o) in sents.iter_mut().enumerate() {
+            if o.outcome == 0 && cols.iter().all(|c| c[i].is_some()) {
+                for c in &cols {
+                    o.alt.push(c[i].clone().unwrap());
                 }
             }
         }
@@ -321,7 +381,7 @@ pub fn run(prop: &str, seed: u64, n: usize, outdir: &str, _corpus: Option<&str>)
             sentences.push(dup); // repeated sentence
             sentences.insert(0, String::new()); // empty first line
         }
-        let out = run_case(&gd, ignore_space, mgl, &sentences, &mut rng, counting, if prop == "C04" { 3 } else { 0 });
+        let out = run_case(&gd, ignore_space, mgl, &sentences, &mut rng, counting, if prop == "C04" { 3 } else { 0 }, prop);
         *dist.entry(format!("build_{}", ["ok", "err", "panic"][out.built as usize])).or_default() += 1;
         *dist.entry(format!("ignore_space_{}", ignore_space)).or_default() += 1;
         *dist.entry(format!("user_lexicon_{}", gd.user.is_some())).or_default() += 1;
